@@ -37,7 +37,7 @@ ASSUMPTIONS = [
   "D additionally gets a/(1-imp) because 1-imp cancels in float32; counts are judged only if stable under the probe",
   "worlds whose nefc exceeds njmax (capacity bucket) are skipped: silent truncation is C16's subject",
 ]
-BUDGET = {"quick": 140, "thorough": 1500}
+BUDGET = {"quick": 300, "thorough": 1500}
 
 ALLOW = {"J": 1e-5, "pos": 1e-5, "margin": 1e-6, "D": 2e-5, "aref": 2e-5, "frictionloss": 1e-6, "vel": 1e-5}
 FIELDS = ("J", "pos", "margin", "D", "aref", "frictionloss", "vel")
